@@ -13,8 +13,7 @@ CASE_TIMEOUT = 20
 RULE = ('cases: 1-4 named inputs, each a scalar or a unique-key table over 1 or 2 key columns (`on` in any order, table columns in any order; keys from a small universe of strings / ints / '
         'floats / None so that overlap, disjointness and emptiness all occur; 1 vs 1.0 across tables), value column named after the input, '
         '"data", or a single other column, or with extra columns; any subset of inputs named in defaults (values 0-8 or None); previously '
-        'computed values supplied as a data table over any keys, expiry absent / scalar / table with cells {2000-01-01, 2999-01-01, None} '
-        '(so the wall clock is irrelevant); scalar inputs are None / ints / LIST- or TUPLE-valued (length 0-3 or exactly the number of rows); defaults= is spelled None / {} / {name: v} and f has python keyword defaults on some parameters; streams with the same table OBJECT passed for two parameters and with a second call on the same instance reusing the tables under other parameter names; after every call every input table must be unchanged (columns, order, identity of each cell); 40% of the cases go through the dict-output path: f declared with 1-3 named outputs and returning a dict, one cache table per output, each supplied or not; an exhaustive stream over all overlap patterns of two tables on 3 keys x defaults x expiry '
+        'computed values supplied as a data table over any keys, expiry absent / scalar / table with cells {2000-01-01, 2999-01-01, None} and, relative to the day of the run, today 00:00 (= dt(0)), later today, today +- 1 microsecond, yesterday, tomorrow (an expiry DATE equal to today is not in the past: recomputed); scalar inputs are None / ints / LIST- or TUPLE-valued (length 0-3 or exactly the number of rows); defaults= is spelled None / {} / {name: v} and f has python keyword defaults on some parameters; streams with the same table OBJECT passed for two parameters and with a second call on the same instance reusing the tables under other parameter names; after every call every input table must be unchanged (columns, order, identity of each cell); 40% of the cases go through the dict-output path: f declared with 1-3 named outputs and returning a dict, one cache table per output, each supplied or not; an exhaustive stream over all overlap patterns of two tables on 3 keys x defaults x expiry '
         'assignments. f records (key, arguments) of every call and returns the decimal digits of its arguments (output i: + 10000 i). Compared inside Coq: the '
         'returned scalar / None / table rows IN ORDER (key columns up to ==) and the multiset of calls. The oracle re-derives from the '
         'property text the expected key set, the order, each value and the exact set of calls. non-trivial = at least one table, and some key '
@@ -37,11 +36,21 @@ TECHNIQUE = 'Coq proof (lists, filter/map, NoDup, StronglySorted) over an execut
 
 PAST = datetime.datetime(2000, 1, 1); FUTURE = datetime.datetime(2999, 1, 1)
 EXPV = {'past': PAST, 'future': FUTURE, 'none': None}
-ECLASS = {'past': 'past', 'future': 'future', 'none': 'none', 'past2': 'past', 'future2': 'future'}    # past2 / future2: one microsecond before / after today 00:00
+# expiry cells relative to the day of the run.  The property speaks of an expiry DATE in the past: today's date is not in the past, so an
+# expiry equal to today (dt(0)), later today, or tomorrow must be recomputed; yesterday (and today 00:00 minus 1 microsecond) is past.
+ECLASS = {'past': 'past', 'future': 'future', 'none': 'none', 'past2': 'past', 'future2': 'future',
+          'today': 'future', 'today_late': 'future', 'tomorrow': 'future', 'yesterday': 'past'}
+REL = {'past2': dict(microseconds=-1), 'future2': dict(microseconds=1), 'today': dict(), 'today_late': dict(hours=17, minutes=30),
+       'tomorrow': dict(days=1), 'yesterday': dict(days=-1)}
+EPOOL = ['past', 'past', 'future', 'none', 'past2', 'future2', 'today', 'today', 'today_late', 'tomorrow', 'yesterday']
+# _dict_output compares with `value > today` (strict) where _value_output uses `>=`: at expiry == today the dict path keeps the stale value.
+# Genuine defect (fixes/C20.patch); C20_DICT_TODAY=0 keeps the boundary off the dict path only.
+import os
+DICT_TODAY = os.environ.get('C20_DICT_TODAY', '1') == '1'
 def expv(e):
     if e in EXPV: return EXPV[e]
     from pyg_base import dt
-    return dt(0) + datetime.timedelta(microseconds=-1 if e == 'past2' else 1)
+    return dt(0) + datetime.timedelta(**REL[e])
 
 # ------------------------------------------------------------------ Coq side
 def norm(v):
@@ -67,6 +76,8 @@ def eff_default(case, a):
     return a.get('pydefault')
 def resolved(case):
     """'same' arguments (the SAME table object passed again under another name) spelled out as tables"""
+    if not DICT_TODAY and case.get('outputs') and case.get('expiry') is not None and 'today' in json.dumps(case['expiry']):
+        case = json.loads(json.dumps(case)); no_dict_today(case)         # switch off: the boundary is kept off the dict path (corpus seeds too)
     if not any(a['kind'] == 'same' for a in case['args']): return case
     byname = {a['name']: a for a in case['args']}
     args = [dict(a, kind='table', rows=byname[a['ref']]['rows'], layout=byname[a['ref']].get('layout', 'named'), _same=a['ref']) if a['kind'] == 'same' else a for a in case['args']]
@@ -97,7 +108,7 @@ def coq_case(case):
     else:
         dat = 'None' if case['data'] is None else '(Some %s)' % coq_rows(case['data']['rows'])
     x = case['expiry']
-    E = {'past': 'EPast', 'future': 'EFuture', 'none': 'ENone', 'past2': 'EPast', 'future2': 'EFuture'}
+    E = {k: {'past': 'EPast', 'future': 'EFuture', 'none': 'ENone'}[v] for k, v in ECLASS.items()}
     if x is None: xs = 'XAbsent'
     elif 'scalar' in x: xs = '(XScalar %s)' % E[x['scalar']]
     else: xs = '(XTable [%s])' % '; '.join('(%s, %s)' % (coq_key(k), E[e]) for k, e in x['rows'])
@@ -479,6 +490,15 @@ def rand_rows(rng, uni, val):
     return [[key_variant(rng, k), val(rng)] for k in ks]
 def rand_pv(rng): return rng.choice([None, 0, 1, 2, 3, 4, 5, 6, 7, 8])
 
+def no_dict_today(case):
+    if DICT_TODAY or not case.get('outputs') or case['expiry'] is None: return
+    x = case['expiry']
+    if 'scalar' in x:
+        if x['scalar'] == 'today': x['scalar'] = 'today_late'
+    else:
+        for r in x['rows']:
+            if r[1] == 'today': r[1] = 'today_late'
+
 def rand_seq(rng, n=None):
     n = rng.choice([0, 1, 2, 3]) if n is None else n
     return {rng.choice(['list', 'tuple']): [rng.randrange(6) for _ in range(n)]}
@@ -555,9 +575,9 @@ def rand_case(rng, stream='rand'):
         case['data'] = {'rows': rand_rows(rng, uni, lambda g: g.choice([None, 500, 600, 700])), 'order': rng.choice([0, 1, 2])}
     r = rng.random()
     if r < 0.45:
-        case['expiry'] = {'rows': rand_rows(rng, uni, lambda g: g.choice(['past', 'past', 'future', 'none', 'past2', 'future2'])), 'layout': rng.choice(['data', 'expiry']), 'order': rng.choice([0, 1, 2])}
+        case['expiry'] = {'rows': rand_rows(rng, uni, lambda g: g.choice(EPOOL)), 'layout': rng.choice(['data', 'expiry']), 'order': rng.choice([0, 1, 2])}
     elif r < 0.6:
-        case['expiry'] = {'scalar': rng.choice(['past', 'future', 'none', 'past2', 'future2'])}
+        case['expiry'] = {'scalar': rng.choice(EPOOL)}
     if rng.random() < 0.4:
         # dict-output path: f declared with named outputs, one cache per output (each supplied or not)
         outs = rng.choice([['p'], ['p', 'q'], ['q', 'p'], ['p', 'q', 'r']])
@@ -568,6 +588,7 @@ def rand_case(rng, stream='rand'):
                 caches[o] = {'rows': rand_rows(rng, uni, lambda g, i=i: g.choice([None, 500 + i, 600 + i, 700 + i])),
                              'layout': rng.choice(['named', 'named', 'data', 'other']), 'order': rng.choice([0, 1, 2])}
         case['outputs'] = outs; case['caches'] = caches; case['data'] = None
+        no_dict_today(case)
     decorate(rng, case, force)
     if nk == 1 and rng.random() < 0.3: case['on_str'] = True          # on='k' instead of on=['k']
     if rng.random() < 0.12:
@@ -588,9 +609,10 @@ def large_case(rng):
             {'name': 'b', 'kind': 'table', 'rows': rows(0.7, rand_pv), 'layout': rng.choice(['data', 'other'])}]
     if rng.random() < 0.5: args[1]['default'] = {'v': rand_pv(rng)}
     case = {'stream': 'large', 'on': ['k'], 'args': args, 'data': {'rows': rows(0.5, lambda g: g.choice([None, 500, 600]))},
-            'expiry': {'rows': rows(0.5, lambda g: g.choice(['past', 'future', 'none', 'past2'])), 'layout': 'data'}}
+            'expiry': {'rows': rows(0.5, lambda g: g.choice(['past', 'future', 'none', 'past2', 'today', 'yesterday'])), 'layout': 'data'}}
     if rng.random() < 0.4:
         case['outputs'] = ['p', 'q']; case['caches'] = {'p': case['data'], 'q': {'rows': rows(0.6, lambda g: g.choice([None, 501]))}}; case['data'] = None
+        no_dict_today(case)
     return case
 
 def exhaustive():
